@@ -55,12 +55,15 @@ class Check:
         self.quiet = quiet
         self.t0 = time.time()
         self.selfcheck: dict = {}
+        self.deferred: list = []
 
     # ---- recording
     def ok(self, rule, key, detail="", where="", nontrivial=True):
         self.obs.append(Ob(rule, str(key), "discharged", detail, where, nontrivial))
 
     def fail(self, rule, key, detail, where="", witness=None):
+        if hasattr(witness, "resolve"):
+            witness = witness.resolve()
         self.obs.append(Ob(rule, str(key), "violated", detail, where, True, witness))
 
     def require(self, cond, rule, key, detail_fail, where="", detail_ok="", nontrivial=True, witness=None):
@@ -80,6 +83,21 @@ class Check:
         if measured < minimum:
             raise AnalysisError(f"instance count for '{what}' is {measured}, below the confirmed floor {minimum}: "
                                 f"the anchor moved or the extractor is blind")
+
+    def guard(self, fn, *args, **kwargs):
+        """Run one rule group; an analysis failure inside it is deferred: if other rules found violations those are
+        reported, otherwise the failure is raised at the end (exit 2)."""
+        try:
+            return fn(*args, **kwargs)
+        except AnalysisError as exc:
+            self.deferred.append(exc)
+            return None
+
+    def raise_deferred(self):
+        if self.deferred and not self.violations():
+            raise self.deferred[0]
+        for exc in self.deferred:
+            self.note(f"rule group not evaluated: {exc}")
 
     def consult(self, *funcs):
         for f in funcs:
